@@ -120,7 +120,14 @@ pub fn explore_with(r: &mut Runner, name: &str, groups: &[Vec<HCall>], maxlen: u
 pub fn explore_mixed(r: &mut Runner, name: &str, own: &[Vec<HCall>], maxlen: usize, judge: Judge, base_index: u64) {
     let mut groups: Vec<Vec<HCall>> = vec![];
     let mut judged: Vec<usize> = vec![];
-    for g in own {
+    // up to three alphabets: the second one (usually a two-word operand), the last one, and the first binary one
+    let mut sel: Vec<usize> = vec![1usize.min(own.len() - 1), own.len() - 1];
+    if let Some(i) = own.iter().position(|g| g[0].b[0] != 0.0) {
+        sel.push(i);
+    }
+    sel.sort();
+    sel.dedup();
+    for g in sel.iter().map(|&i| &own[i]) {
         let mut all = g.clone();
         let a = g[0].a;
         let b = if g[0].b[0] != 0.0 { g[0].b } else { [a[0] * 0.75, a[1] * 0.75] };
@@ -130,8 +137,14 @@ pub fn explore_mixed(r: &mut Runner, name: &str, own: &[Vec<HCall>], maxlen: usi
                 2 if matches!(o, Op::add | Op::sub | Op::mul | Op::div | Op::rem | Op::hypot | Op::powf | Op::log | Op::atan2 | Op::div_euclid | Op::rem_euclid | Op::mul_assign | Op::div_assign | Op::powi) => HCall::op(o, a, if o == Op::powi { [5.0, 0.0] } else { b }),
                 _ => continue,
             };
-            if !all.iter().any(|d| d.kind == c.kind && d.code == c.code && d.a[0].to_bits() == c.a[0].to_bits() && d.a[1].to_bits() == c.a[1].to_bits() && d.b[0].to_bits() == c.b[0].to_bits() && d.b[1].to_bits() == c.b[1].to_bits()) {
-                all.push(c);
+            let mut cs = vec![c];
+            if o.arity() == 2 && o != Op::powi {
+                cs.push(HCall::op(o, b, a)); // the other operand order
+            }
+            for c in cs {
+                if !all.iter().any(|d| d.kind == c.kind && d.code == c.code && d.a[0].to_bits() == c.a[0].to_bits() && d.a[1].to_bits() == c.a[1].to_bits() && d.b[0].to_bits() == c.b[0].to_bits() && d.b[1].to_bits() == c.b[1].to_bits()) {
+                    all.push(c);
+                }
             }
         }
         all.push(HCall::op(Op::sin_cos, a, [0.0, 0.0]));
@@ -141,6 +154,7 @@ pub fn explore_mixed(r: &mut Runner, name: &str, own: &[Vec<HCall>], maxlen: usi
         judged.push(g.len());
         groups.push(all);
     }
+    let maxlen = if r.quick() { maxlen } else { maxlen + 1 }; // the thorough tier explores one call deeper
     explore_core(r, name, &groups, &judged, maxlen, &|c: &HCall| c.exec(), judge, base_index)
 }
 
@@ -186,7 +200,15 @@ fn explore_core(r: &mut Runner, name: &str, groups: &[Vec<HCall>], judged: &[usi
                     continue;
                 }
                 let v = run_sequence_with(&seq, exec, judge, l);
-                rec.record(l, base_index + ((gi as u64) << 24) + k, wrap(v, &seq));
+                let mut index = base_index + ((gi as u64) << 24) + k;
+                if v.is_fail() {
+                    // process-wide hidden state can be set by histories running concurrently on other threads: run the
+                    // sequence once more and list the violations that reproduce first (they are the faithful replays)
+                    if !run_sequence_with(&seq, exec, judge, &mut Local::default()).is_fail() {
+                        index += 1u64 << 50;
+                    }
+                }
+                rec.record(l, index, wrap(v, &seq));
             }
             before += (n.pow(len as u32)) as u64;
         }
